@@ -2,6 +2,7 @@
 C07 - a range query equals the sequence of instant queries on its step grid.
 -/
 import PromqlVerif.Proofs.Den
+import PromqlVerif.Proofs.StartInv
 import PromqlVerif.Proofs.Grid
 namespace PromqlVerif.C07
 open PromqlVerif Val
@@ -71,5 +72,25 @@ theorem collect_singleton (o : OpSem V) (t : Int) (xs : IdVec V) (h : o.step t =
     engCollect o [t] = .ok ((enum o.series).map fun (i, ls) =>
       (ls, ([(t, xs)] : List (Int × IdVec V)).filterMap fun (t, xs) => (xs.find? (·.1 == i)).map fun x => (t, x.2))) := by
   simp [engCollect, h, bind, Except.bind, pure, Except.pure, Except.map]
+
+/-- **the point of a range query at `t` is the result of an instant query at `t`** (reference
+semantics). A range query evaluates every step with `start` = the first step of its window, an
+instant query at `t` with `start = t`; the window start enters the semantics only through
+step-invariant wrappers (evaluated at `start`) and through the offset fix-up of `@`-pinned
+selectors (relative to `start`). For every preprocessed expression (`WP`: unpinned selectors
+outside wrappers; inside a wrapper every selector pinned and no `time()` / `timestamp()` - what
+`PreprocessExpr` produces for a query without `start()` / `end()`, whose pinned timestamps would
+otherwise differ between the two windows), every storage and every two window starts, the value at
+`t` is the same. Hence it does not depend on the window's start, length, or step count either. -/
+theorem range_point_is_instant_result (c : Ctx V) (e : Expr V) (hwp : WP e) (start t : Int) :
+    eval { c with start := start } t e = eval { c with start := t } t e :=
+  wp_inv c start t e hwp t
+
+/-- an expression the theorem applies to: `rate(m[5m] @ 1000) + n offset 1m` after preprocessing -/
+example :
+    WP (.bin "+" false ⟨.oneToOne, false, [], []⟩
+      (.stepInv (.call "rate" [.msel { matchers := [⟨.eq, "__name__", "m"⟩], origOffset := 0, atTs := some 1000000 } 300000]))
+      (.vsel { matchers := [⟨.eq, "__name__", "n"⟩], origOffset := 60000, atTs := none }) : Expr V) := by
+  simp [WP, Pin, Pin.pinArgs]
 
 end PromqlVerif.C07
